@@ -68,6 +68,9 @@ inline void make_group(Group &G, uint64_t seed, unsigned long psize, unsigned lo
 //  c  a,b: crash inside its a-th own broadcast after the r-send to parties 0..b-1 went out   (partial broadcast)
 //  M  a,b: the payload of its a-th own broadcast is replaced, the same for all recipients: b=0 value+1, 1 zero,
 //          2 p-1 (order two), 3 value+q
+//  I  a,b: one additional reliable broadcast with payload b is made just before its a-th own broadcast (a false or
+//          duplicated complaint, a stray end marker ...); the sequence numbers of its later broadcasts are shifted
+//  J  a,b: three additional broadcasts b, 1, 1 before its a-th own broadcast (a complaint with two values)
 struct Dev {
 	char kind;
 	int a, b;
@@ -99,12 +102,14 @@ struct PartyState {
 	int events, bcasts, cur_batch;
 	std::vector<int> ucount;
 	bool fired, crashed;
+	int ins_off;               // sequence number shift after an inserted broadcast, valid in channel ins_id
+	std::string ins_id;
 	// coins
 	int phase, weak8;
 	// results
 	int phase_done;
 	std::vector<int> ret;      // -1 not run, 0 false, 1 true
-	PartyState() : faulty(false), events(0), bcasts(0), cur_batch(-1), fired(false), crashed(false), phase(0), weak8(0), phase_done(-1) {}
+	PartyState() : faulty(false), events(0), bcasts(0), cur_batch(-1), fired(false), crashed(false), ins_off(0), phase(0), weak8(0), phase_done(-1) {}
 };
 
 struct Cfg {
@@ -273,6 +278,30 @@ inline bool run_world(World &W, Proto &P, uint64_t seed)
 			if (ps.faulty && d.kind == 'C' && ev >= d.a) { ps.fired = true; throw Crash(); }
 		}
 		if (!ps.faulty) return true;
+		if ((d.kind == 'I' || d.kind == 'J') && to == 0 && ps.cur_batch == d.a && !ps.fired)
+		{
+			std::vector<std::string> pay;
+			pay.push_back(drv::str(d.b));
+			if (d.kind == 'J') pay.push_back("1"), pay.push_back("1");
+			Mpz seq;
+			mpz_set_str(seq, m.v[2].c_str(), 10);
+			for (size_t x = 0; x < pay.size(); x++)
+			{
+				sched::Msg extra;
+				extra.is_array = true;
+				extra.v.push_back(m.v[0]), extra.v.push_back(m.v[1]), extra.v.push_back(seq.s()), extra.v.push_back("1"), extra.v.push_back(pay[x]);
+				for (int r = 0; r < n; r++) bcast.q[from][r].push_back(extra), bcast.sent++;
+				mpz_add_ui(seq, seq, 1);
+			}
+			ps.ins_off = (int)pay.size(), ps.ins_id = m.v[0], ps.fired = true;
+		}
+		if (ps.ins_off && m.v[0] == ps.ins_id)
+		{
+			Mpz seq;
+			mpz_set_str(seq, m.v[2].c_str(), 10);
+			mpz_add_ui(seq, seq, (unsigned long)ps.ins_off);
+			m.v[2] = seq.s();
+		}
 		if (d.kind == 'c' && ps.cur_batch == d.a && to >= d.b) { ps.fired = true; throw Crash(); }
 		if (d.kind == 'M' && ps.cur_batch == d.a) { apply_payload(m.v[4], d.b, G); ps.fired = true; }
 		return true;
